@@ -159,6 +159,9 @@ def _solve_one(task):
             try:
                 if pb.startswith("z3-cli") and cli:
                     r = _run_cli([cli, "-t:%d" % int(budget * 1000)], text, budget + 5)
+                elif pb.startswith("cvc5-1.0-linearized"):
+                    lt = _linearized_text(z3, text)
+                    r = _run_cli(["/usr/bin/cvc5", "--tlimit=%d" % int(budget * 1000)], "(set-logic ALL)\n" + lt, budget + 5) if lt else None
                 elif pb.startswith("z3-linearized"):
                     r = _stage(z3, "z3-linearized", {"linearize": True}, budget, text, False, out)
                 elif pb.startswith("z3-nlsat"):
@@ -193,6 +196,21 @@ def _solve_one(task):
                     done = True
                     break
             if done:
+                break
+    if not done and os.path.exists("/usr/bin/cvc5"):
+        # cvc5 on the linearised abstraction (products as uninterpreted functions: UF + mixed linear integer / real
+        # arithmetic, where z3's branch-and-bound occasionally diverges on unbounded integers such as a named floor)
+        for suffix, text in texts:
+            try:
+                lt = _linearized_text(z3, text)
+                if lt is None:
+                    continue
+                r = _run_cli(["/usr/bin/cvc5", "--tlimit=%d" % int(min(timeout_s, 6.0) * 1000)], "(set-logic ALL)\n" + lt, min(timeout_s, 6.0) + 5)
+            except Exception:
+                r = None
+            if r == "unsat":
+                out["verdict"], out["backend"] = "unsat", "cvc5-1.0-linearized%s" % suffix
+                done = True
                 break
     for label, opts0, tmo in ([] if done else stages):
         for suffix, text in texts:
@@ -257,6 +275,17 @@ def _run_cli(cmd, text, limit):
         return None
     finally:
         os.unlink(path)
+
+
+def _linearized_text(z3, smt2):
+    """SMT-LIB text of the linearised abstraction of a VC (see _linearize): sound for `unsat` only"""
+    ctx = z3.Context()
+    s = z3.Solver(ctx=ctx)
+    s.from_string(smt2)
+    s2 = z3.Solver(ctx=ctx)
+    for a in _linearize(s.assertions(), ctx):
+        s2.add(a)
+    return s2.to_smt2()
 
 
 def _stage(z3, label, opts, tmo, smt2, want_model, out):
